@@ -5,6 +5,8 @@ import DtsVerif.Drv.Calib
 import DtsVerif.Drv.Guards
 import DtsVerif.Drv.MonteCarlo
 import DtsVerif.Drv.Average
+import DtsVerif.Drv.Resid
+import DtsVerif.Drv.Attrs
 /-! Line-protocol driver: one JSON request per line on stdin, one JSON reply per line on stdout. -/
 open Lean DtsVerif.Drv
 
@@ -25,6 +27,9 @@ def dispatch (op : String) (j : Json) : R Json :=
   | "mc.unpack" => opMcUnpack j
   | "avg.table" => opAvgTable j
   | "avg.values" => opAvgValues j
+  | "resid.place" => opResidPlace j
+  | "resid.var" => opSampleVar j
+  | "attrs" => opAttrs j
   | _ => throw "bad-op"
 
 def handle (line : String) : String :=
